@@ -25,6 +25,7 @@ RULE = ("case = one key word x key dtypes x naming pattern; every case runs valu
         "index names, labels, order, Series-vs-DataFrame, name, columns, neutral values, column "
         "independence; non-trivial = >= 2 labels or an unobserved label")
 ASSUMPTIONS = [
+    "keys given as a mapping (unnamed arrays, or Series named differently) and as a frame: the mapping's keys name the levels",
     "n <= 4 rows (quick) / 5 (thorough) single key; n <= 3 two keys, n <= 2-3 three keys; G <= 3",
     "values are non-null and distinct per row (value semantics are C01's business)",
     "observed_only=False lists every label of the result index: all labels occurring in the keys "
